@@ -159,7 +159,8 @@ pub fn noise(rng: &mut Rng, phase: Phase, max_pair: usize) -> Rec {
     let foreign = |rng: &mut Rng| -> u16 { loop { let mut i = rng.below(65536) as u16; if i != 0 && i < fmin { i |= fmin; } if Phase::Active(i) != phase { return if rng.chance(1, 6) { 0 } else { i }; } } };
     let small = |rng: &mut Rng| -> Vec<u8> { let n = match rng.below(4) { 0 => 0, 1 => rng.usize_below(9), _ => rng.usize_below(70) }; rng.bytes(n) };
     match rng.below(10) {
-        0..=2 => Rec::new(T_GETVALUES, 0, gv_body(rng, max_pair), pad_bytes(rng)),
+        // a quarter of the queries carry PADDING that spells a complete pair naming a known variable (padding is not part of the query)
+        0..=2 => { let body = gv_body(rng, max_pair); let pad = if rng.chance(1, 4) { let nm: &[u8] = *rng.pick(&VAR_NAMES); let mut p = nv_enc(nm, b""); let extra = rng.usize_below(6); p.extend(std::iter::repeat(0u8).take(extra)); p } else { pad_bytes(rng) }; Rec::new(T_GETVALUES, 0, body, pad) },
         3..=4 => { let t = loop { let t = rng.below(256) as u8; if !(1..=11).contains(&t) { break t; } }; let id = if rng.chance(1, 2) { 0 } else { rng.below(65536) as u16 }; Rec::new(t, id, small(rng), pad_bytes(rng)) }
         5 => Rec::new(T_GETVALUES, { let i = foreign(rng); if i == 0 { 7 } else { i } }, gv_body(rng, max_pair), pad_bytes(rng)),  // GetValues with a request id: skipped
         6 => match phase {
